@@ -466,6 +466,64 @@ class GeneIncorporate(Case):
         return [o(r[0]), o(r[1]), r[2], [obs_loc(x)[:2] for x in r[3]], list(r[4])]
 
 
+class CollectionIncorporate(Case):
+    """AnnotationCollection.incorporate_variants: EVERY child of the new collection is the edited image of the source
+    child - also a gene / feature collection that the variant does not touch but that lies DOWNSTREAM of it (its
+    coordinates move by the length change).  One gene and one feature collection (single-block children), one variant
+    wholly outside or inside each child; parentless objects (coordinates only)."""
+    props = ("C13", "C09")
+    summaries = (HOS,)
+    func = "gene.collections.AnnotationCollection.incorporate_variants"
+    module = "gene.collections"
+    shard_depth = 5
+    name = "AnnotationCollection.incorporate_variants[gene + feature collection, one variant]"
+    call = ("(lambda c: ([(g.gene_id, g.start, g.end) for g in c.genes], "
+            "[(f.feature_collection_id, f.start, f.end) for f in c.feature_collections]))(col.incorporate_variants(v))")
+    raises = {"EmptyLocationException": lambda i: Or(*[a >= b for a, b in _image(i)])}
+    ensures = {
+        "every-child-is-the-edited-image": lambda i, r: And(
+            len(r[0]) == 1, len(r[1]) == 1, r[0][0][0] == "g0", r[1][0][0] == "fc",
+            r[0][0][1] == _image(i)[0][0], r[0][0][2] == _image(i)[0][1],
+            r[1][0][1] == _image(i)[1][0], r[1][0][2] == _image(i)[1][1]),
+    }
+
+    def inputs(self, S):
+        strand = strand_of(S, "strand")
+        starts, ends = [], []
+        for k in range(2):
+            s_, e_ = S.int(f"s{k}"), S.int(f"e{k}")
+            S.assume(And(0 <= s_, s_ < e_))
+            starts.append(s_)
+            ends.append(e_)
+        vs, ve = S.int("v_start"), S.int("v_end")
+        alt = S.symstr("v_alt", "ACGTN")
+        S.assume(And(0 <= vs, vs < ve))
+        v = S.new(VAR, vs, ve, alt, "variant")
+        tx = S.new(TRANSCRIPT, [starts[0]], [ends[0]], strand, transcript_id="t0")
+        gene = S.new("gene.gene.GeneInterval", [tx], gene_id="g0")
+        feat = S.new(FEATURE, [starts[1]], [ends[1]], strand, feature_id="f1")
+        fc = S.new("gene.feature.FeatureIntervalCollection", [feat], feature_collection_id="fc")
+        col = S.new("gene.collections.AnnotationCollection", genes=[gene], feature_collections=[fc])
+        l = slen(alt)
+        i = NS(col=col, v=v, vs=vs, ve=ve, l=l, d=l - (ve - vs), starts=starts, ends=ends, strand=strand)
+        from .c13_variants import _placed_all as placed_each
+        S.assume(placed_each(i))
+        return i
+
+    def samples(self, rng):
+        d = dict(strand=rng.choice(["PLUS", "MINUS"]))
+        for k in range(2):
+            s_ = rng.randint(0, 14)
+            d[f"s{k}"], d[f"e{k}"] = s_, s_ + rng.randint(1, 8)
+        vs = rng.randint(0, 18)
+        d.update(v_start=vs, v_end=vs + rng.randint(1, 3), v_alt="".join(rng.choice("ACGT") for _ in range(rng.randint(0, 4))))
+        return d
+
+    def observe(self, r):
+        from pyvc.check import default_observe as o
+        return [[[a, o(b), o(c)] for a, b, c in r[0]], [[a, o(b), o(c)] for a, b, c in r[1]]]
+
+
 class HaplotypeMapping(Case):
     """AnnotationCollection built with TWO haplotypes (variant collections): every haplotype whose span shares a
     position with a gene gets its own entry in alternative_haplotype_mapping holding that gene with the haplotype
@@ -614,7 +672,7 @@ def _placed_cds(i):
 CASES = [FeatureIncorporate(1), FeatureIncorporate(2), CdsIncorporate(1),
          CdsIncorporate(2, place="downstream of"), CdsIncorporate(2, place="upstream of", tier="thorough"),
          CdsIncorporate(2, tier="thorough"), TranscriptIncorporate(1), TranscriptIncorporate(2, tier="thorough"),
-         CdsIncorporateCollection(), FeatureIncorporateCollection(), GeneIncorporate(), HaplotypeMapping()]
+         CdsIncorporateCollection(), FeatureIncorporateCollection(), GeneIncorporate(), HaplotypeMapping(), CollectionIncorporate()]
 
 CANARIES = [
     dict(name="incorporate_variants: frames rebuilt from the first LISTED frame (F-C13-4)", props=("C13",),
